@@ -115,6 +115,9 @@ type faultDS struct {
 
 	queries atomic.Int64
 	writes  atomic.Int64
+	// readFault: the next Get/Has/GetSize fails once with errInjected.
+	readFault  atomic.Bool
+	readFaults atomic.Int64
 	// onQuery is called at the very beginning of every Query call (after the
 	// caller deactivated/swapped the filter, before the snapshot is taken).
 	onQuery func()
@@ -145,6 +148,10 @@ func (d *faultDS) armWrite(p *writePlan) { d.mu.Lock(); d.wf = p; d.mu.Unlock() 
 func (d *faultDS) disarmWrite()          { d.mu.Lock(); d.wf = nil; d.mu.Unlock() }
 
 func (d *faultDS) Get(ctx context.Context, k ds.Key) ([]byte, error) {
+	if d.readFault.CompareAndSwap(true, false) {
+		d.readFaults.Add(1)
+		return nil, errInjected
+	}
 	d.delay.pause()
 	v, err := d.under.Get(ctx, k)
 	d.delay.pause()
@@ -152,6 +159,10 @@ func (d *faultDS) Get(ctx context.Context, k ds.Key) ([]byte, error) {
 }
 
 func (d *faultDS) Has(ctx context.Context, k ds.Key) (bool, error) {
+	if d.readFault.CompareAndSwap(true, false) {
+		d.readFaults.Add(1)
+		return false, errInjected
+	}
 	d.delay.pause()
 	v, err := d.under.Has(ctx, k)
 	d.delay.pause()
@@ -159,6 +170,10 @@ func (d *faultDS) Has(ctx context.Context, k ds.Key) (bool, error) {
 }
 
 func (d *faultDS) GetSize(ctx context.Context, k ds.Key) (int, error) {
+	if d.readFault.CompareAndSwap(true, false) {
+		d.readFaults.Add(1)
+		return -1, errInjected
+	}
 	d.delay.pause()
 	v, err := d.under.GetSize(ctx, k)
 	d.delay.pause()
